@@ -16,6 +16,9 @@ checks = {
  "C12": ("E1", E1,
    "All schedules (pre-emption bound 2 quick / 3 thorough) of 1-4 senders x 1-2 messages on Handler.NewByCh / Actor.NewByOptions with capacities 0-2, Close followed by further submissions, and spawn trees (from the driver, from inside an effect, under a closed parent) are executed on the instrumented real code; the enter/leave log must show exactly-once, non-overlapping, per-sender-ordered processing.",
    "Bounded threads/messages/pre-emptions; SC interleavings; vsched runtime model.", "DESIGN.md §2, §5 C12"),
+ "C13": ("E1", E1,
+   "All schedules (pre-emption bound 2/3, early timer firing as a deviation) of 1-3 concurrent askers using AskOnce / AskChannel / AskOnceWithTimeout against an actor that replies at once, after a yield, 20 virtual ms late, or never, each followed by a second ask; every asker must receive the answer computed from its own payload or a clean (zero, ErrActorAskTimeout), no goroutine may panic or stay blocked, later asks must be served.",
+   "Bounded askers/pre-emptions; virtual time; SC interleavings; vsched runtime model.", "DESIGN.md §2, §5 C13"),
 }
 
 not_yet = "check not built yet in this round (see DESIGN.md §9 build order); no claim made"
